@@ -9,7 +9,9 @@ HARNESSES = [
     ("c03", "rcfork", ()),
     ("c05", "rcfork", ()),
     ("c06", "rcfork", ()),
+    ("c07", "rcfork", ()),
     ("c08", "rcfork", ()),
+    ("fz_synthetic", "fuzz", ()),
     ("fz_xml", "fuzz", ()),
     ("fz_xml_file", "fuzz", ("-DVIA_FILE=1",), "fz_xml"),
     ("fz_diffxml", "fuzz", ()),
@@ -96,7 +98,7 @@ def replay_one(ctx, path):
 
 
 # engine cfg.name -> source file name
-ALIASES = {"c01_load": "c01", "c02_history": "c02", "c03_bitmap": "c03", "c05_xml": "c05", "c06_xmlmut": "c06", "c08_restrict": "c08", "c12_dup": "c12", "c13_distances": "c13", "c14_memattrs": "c14", "c15_cpukinds": "c15", "c16_diff": "c16", "c04_strings": "c04"}
+ALIASES = {"c01_load": "c01", "c02_history": "c02", "c03_bitmap": "c03", "c05_xml": "c05", "c06_xmlmut": "c06", "c07_synthetic": "c07", "c08_restrict": "c08", "c12_dup": "c12", "c13_distances": "c13", "c14_memattrs": "c14", "c15_cpukinds": "c15", "c16_diff": "c16", "c04_strings": "c04"}
 
 
 def C01(ctx):
@@ -207,4 +209,12 @@ def C06(ctx):
     ])
 
 
-PROPS = {"C01": C01, "C06": C06, "C05": C05, "C16": C16, "C14": C14, "C13": C13, "C15": C15, "C08": C08, "C12": C12, "C02": C02, "C03": C03, "C04": C04}
+def C07(ctx):
+    std_check(ctx, [dict(harness="c07", aliases=["c07_synthetic"], cases=(450, 14000), max_ops=1)])
+    seeds = [b"pack:2 [numa] l3:2 core:2 pu:2", b"numa:3 pack:2 core:2 pu:1", b"2 3 4 5 6", b"pack:2 core:2 pu:2(indexes=core:pu)", b"Package:1 Group:4 [NUMANode(memory=1GB indexes=1,0,3,2)] [numa] core:4 pu:2(indexes=2*4:4*2)",
+             b"(memory=4GB) pack:2 numa:2(memory=512MB memorysidecachesize=16MB) l2:2(size=1MB) pu:2", b"Group:1 Group:1 Group:1 Group:1 Group:1 pu:3"]
+    run_fuzz_targets(ctx, [dict(name="fz_synthetic", seconds=(20, 600), workers=(14, 14), max_len=512, seeds=seeds, dict=os.path.join(V.VERIF, "support", "syn.dict"), hang_is_violation=True,
+                                rule="libFuzzer bytes -> NUL-terminated description in an exactly-sized heap block; set_synthetic returns 0 or -1/EINVAL, accepted small descriptions load into well-formed topologies and export obeys the length contract; non-trivial = accepted and loaded with depth >= 4 (distinct counted in-target)")])
+
+
+PROPS = {"C01": C01, "C07": C07, "C06": C06, "C05": C05, "C16": C16, "C14": C14, "C13": C13, "C15": C15, "C08": C08, "C12": C12, "C02": C02, "C03": C03, "C04": C04}
